@@ -97,6 +97,15 @@ impl Counts {
 
     /// Records the framing overhead of a DATA frame.
     pub fn record_data_frame(&mut self, payload_len: usize) -> Result<(), BudgetExhausted> {
+        #[cfg(feature = "verif-hooks")]
+        crate::verif::ev("budget.record", || {
+            vec![
+                payload_len as i64,
+                self.data_frame_budget.available as i64,
+                self.data_frame_budget.max as i64,
+                self.num_recv_empty_data_frames as i64,
+            ]
+        });
         if payload_len == 0 {
             self.num_recv_empty_data_frames = self
                 .num_recv_empty_data_frames
@@ -119,6 +128,15 @@ impl Counts {
     /// Releases the framing overhead of a DATA frame that is no longer
     /// buffered internally.
     pub fn release_data_frame(&mut self, payload_len: usize) {
+        #[cfg(feature = "verif-hooks")]
+        crate::verif::ev("budget.release", || {
+            vec![
+                payload_len as i64,
+                self.data_frame_budget.available as i64,
+                self.data_frame_budget.max as i64,
+                self.num_recv_empty_data_frames as i64,
+            ]
+        });
         if payload_len != 0 && payload_len < DEFAULT_DATA_FRAME_OVERHEAD_THRESHOLD {
             self.data_frame_budget
                 .replenish(DEFAULT_DATA_FRAME_OVERHEAD_THRESHOLD - payload_len);
@@ -585,6 +603,10 @@ impl Counts {
 
     // TODO: move this to macro?
     pub fn transition_after(&mut self, mut stream: store::Ptr, is_reset_counted: bool) {
+        #[cfg(feature = "verif-hooks")]
+        crate::verif::ev("counts.transition_rec", || {
+            stream.verif_life(stream.key().verif_index())
+        });
         #[cfg(feature = "verif-hooks")]
         let _verif = crate::verif::enter("counts.transition_after", || {
             vec![
